@@ -8,6 +8,8 @@ import HcipyVerif.Model.Coronagraph
 * `apply [re] [im]` → `ok [re'] [im']` (perfect coronagraph on both real components)
 * `lyot Fre Fim Bre Bim [mre] [mim] SRE SIM [Ere] [Eim]` (matrices `[row];[row]`, stop `-` `-` for none)
 * `occulted Fre Fim Bre Bim [mre] [mim] [Ere] [Eim]`
+* `lyotb …`, `occultedb …` → the same arguments, the `backward` methods (`lyotBackward`, `occultedBackward`)
+* `lyotadj Fre Fim Bre Bim [mre] [mim] SRE SIM [xre] [xim] [yre] [yim]` → `ok adj=max|B−Fᴴ| lhs=⟨y,forward x⟩ rhs=⟨backward y,x⟩`
 * `levels NY NX DX DY Q S W` → level bookkeeping of the multi-scale coronagraphs
 * `pmat T Tinv [c] [w] MU` → stores the real object's `transformation` (`n` rows `[..];[..]`),
   `transformation_inverse` (`k` rows), `coeffs`, grid weights; answers the defects of the theorem
@@ -70,7 +72,7 @@ def showPad : Pad → String
 
 def showPair (p : Rat × Rat) : String := s!"{showRat p.1},{showRat p.2}"
 
-def lyotOp (occ : Bool) (fre fim bre bim mre mim sre sim ere eim : String) : String :=
+def lyotOp (occ back : Bool) (fre fim bre bim mre mim sre sim ere eim : String) : String :=
   match parseRatLists? fre, parseRatLists? fim, parseRatLists? bre, parseRatLists? bim,
         parseRatList? mre, parseRatList? mim, parseRatList? ere, parseRatList? eim with
   | some fre, some fim, some bre, some bim, some mre, some mim, some ere, some eim =>
@@ -83,14 +85,48 @@ def lyotOp (occ : Bool) (fre fim bre bim mre mim sre sim ere eim : String) : Str
     let B := cmat bre bim n m
     let mask := cvec mre mim m
     let E := cvec ere eim n
-    if occ then "ok " ++ showC (occultedForward F B mask E) else
-    if sre == "-" && sim == "-" then "ok " ++ showC (lyotForward F B mask none E) else
+    let run (stop : Option (Vec CRat n)) : String :=
+      if back then "ok " ++ showC (lyotBackward CRat.conj F B mask stop E) else "ok " ++ showC (lyotForward F B mask stop E)
+    if occ then "ok " ++ showC (if back then occultedBackward CRat.conj F B mask E else occultedForward F B mask E) else
+    if sre == "-" && sim == "-" then run none else
     match parseRatList? sre, parseRatList? sim with
     | some sre, some sim =>
-      if sre.length != n || sim.length != n then "bad-op"
-      else "ok " ++ showC (lyotForward F B mask (some (cvec sre sim n)) E)
+      if sre.length != n || sim.length != n then "bad-op" else run (some (cvec sre sim n))
     | _, _ => "bad-op"
   | _, _, _, _, _, _, _, _ => "bad-op"
+
+def showC1 (a : CRat) : String := showRat a.re ++ "," ++ showRat a.im
+
+/-- `lyotadj`: the hypothesis (`B = Fᴴ`) and both sides of `lyot_backward_adjoint`. -/
+def lyotAdj (fre fim bre bim mre mim sre sim xre xim yre yim : String) : String :=
+  match parseRatLists? fre, parseRatLists? fim, parseRatLists? bre, parseRatLists? bim,
+        parseRatList? mre, parseRatList? mim, parseRatList? xre, parseRatList? xim, parseRatList? yre, parseRatList? yim with
+  | some fre, some fim, some bre, some bim, some mre, some mim, some xre, some xim, some yre, some yim =>
+    let n := xre.length
+    let m := mre.length
+    if xim.length != n || yre.length != n || yim.length != n || mim.length != m || fre.length != m || fim.length != m ||
+       bre.length != n || bim.length != n || !rect fre n || !rect fim n || !rect bre m || !rect bim m
+    then "bad-op" else
+    let F := cmat fre fim m n
+    let B := cmat bre bim n m
+    let mask := cvec mre mim m
+    let x := cvec xre xim n
+    let y := cvec yre yim n
+    let stop : Option (Option (Vec CRat n)) :=
+      if sre == "-" && sim == "-" then some none else
+      match parseRatList? sre, parseRatList? sim with
+      | some a, some b => if a.length != n || b.length != n then none else some (some (cvec a b n))
+      | _, _ => none
+    match stop with
+    | none => "bad-op"
+    | some stop =>
+      let defect := maxAbs ((List.finRange n).flatMap fun i => (List.finRange m).flatMap fun k =>
+        let d := propAdjointDefect CRat.conj F B i k
+        [d.re, d.im])
+      let lhs := cdot CRat.conj y (lyotForward F B mask stop x)
+      let rhs := cdot CRat.conj (lyotBackward CRat.conj F B mask stop y) x
+      s!"ok adj={showRat defect} lhs={showC1 lhs} rhs={showC1 rhs}"
+  | _, _, _, _, _, _, _, _, _, _ => "bad-op"
 
 def pairs {α} : List α → List (α × α)
   | a :: b :: t => (a, b) :: pairs t
@@ -236,9 +272,15 @@ def step (st : St) : List String → St × String
       | _ => (st, "bad-op")
     | _, _, _, _, _, _ => (st, "bad-op")
   | ["lyot", fre, fim, bre, bim, mre, mim, sre, sim, ere, eim] =>
-    (st, lyotOp false fre fim bre bim mre mim sre sim ere eim)
+    (st, lyotOp false false fre fim bre bim mre mim sre sim ere eim)
+  | ["lyotb", fre, fim, bre, bim, mre, mim, sre, sim, ere, eim] =>
+    (st, lyotOp false true fre fim bre bim mre mim sre sim ere eim)
+  | ["lyotadj", fre, fim, bre, bim, mre, mim, sre, sim, xre, xim, yre, yim] =>
+    (st, lyotAdj fre fim bre bim mre mim sre sim xre xim yre yim)
   | ["occulted", fre, fim, bre, bim, mre, mim, ere, eim] =>
-    (st, lyotOp true fre fim bre bim mre mim "-" "-" ere eim)
+    (st, lyotOp true false fre fim bre bim mre mim "-" "-" ere eim)
+  | ["occultedb", fre, fim, bre, bim, mre, mim, ere, eim] =>
+    (st, lyotOp true true fre fim bre bim mre mim "-" "-" ere eim)
   | ["levels", ny, nx, dx, dy, q, s, w] =>
     match parseNat? ny, parseNat? nx, parseRat? dx, parseRat? dy, parseRat? q, parseRat? s, parseNat? w with
     | some ny, some nx, some dx, some dy, some q, some s, some w =>
